@@ -36,6 +36,9 @@ def lookup(prop):
     if prop == "C16":
         from harness import check_c16
         return check_c16.run
+    if prop == "C07":
+        from harness import check_c07
+        return check_c07.run
     if prop == "C12":
         from harness import check_c12
         return check_c12.run
